@@ -113,7 +113,12 @@ class BMCI:
 
 
         # Eigenvalues of s
-        self.y_mean  = np.mean(y, axis = 0)
+        # The mean (and with it the projections below) is taken in at least
+        # double precision, also for databases stored as float32. Otherwise
+        # the projections of the database are rounded more coarsely than
+        # the one of an observation and entries at the edge of the search
+        # window are lost.
+        self.y_mean  = np.mean(y, axis = 0, dtype = np.result_type(y, float))
 
         w, v = np.linalg.eig(self.s_o)
 
